@@ -18,7 +18,7 @@ import (
 func init() {
 	core.Register(&core.Prop{
 		ID: "C11",
-		Rule: "case = one insert/delete history (50-2000 operations built from phases: grow, drain to empty, refill, oscillate around split/underflow sizes, delete in insertion / reverse / random order, absent-object deletes) on a tree with branching parameters drawn from all valid (min,max), 2<=min<=max/2, max<=16; objects are *Bounds pointers, Point values (duplicates equal) and a harness pointer type, on a small integer grid (coincident and touching boxes frequent) or floats; runs of concentric boxes stored outside-in followed by their centre point; 15% of histories draw most objects from a palette of 1..5 boxes (whole nodes of coincident entries), half of those with fan-outs 17..100; " +
+		Rule: "case = one insert/delete history (50-2000 operations built from phases: grow, drain to empty, refill, oscillate around split/underflow sizes, delete in insertion / reverse / random order, absent-object deletes) on a tree with branching parameters drawn from all valid (min,max), 2<=min<=max/2, max<=16; objects are *Bounds pointers, Point values (duplicates equal) and a harness pointer type (3% with an empty bounding box, 1% so large that areas overflow), on a small integer grid (coincident and touching boxes frequent) or floats; runs of concentric boxes stored outside-in followed by their centre point; 15% of histories draw most objects from a palette of 1..5 boxes (whole nodes of coincident entries), half of those with fan-outs 17..100; " +
 			"after EVERY operation a brute-force multiset model is compared (Size, Delete result, 6 SearchIntersect queries incl. degenerate/touching/empty/whole-space) and the hooked node structure is walked (all leaves at one depth, Depth() equals it, every entry box == exact envelope of its subtree, fan-out <= max, leaf entries carry objects, objects in leaves == Size); " +
 			"an evaluation is one operation judged; non-trivial = history in which the walker observed a root collapse (height decrease); distinct by history hash",
 		Assumptions: []string{"objects are comparable (pointers, points, boxes) as the property states", "parent-link and level consistency are recorded, not judged (not stated by the property)"},
@@ -66,26 +66,28 @@ type stored struct {
 }
 
 type hist struct {
-	c                  *core.Ctx
-	r                  *gen.R
-	tree               *rtree.Rtree
-	min                int
-	max                int
-	model              []stored
-	nextID             int
-	float              bool
-	log                []string
-	hash               *core.Hasher
-	prevH              int
-	sawColl            bool
-	sawIntU            bool
-	removed            []stored // previously deleted objects (for absent deletes)
-	failed             bool
-	nn                 bool
-	loose              bool          // C12: the last structure walk saw a non-tight node box
-	far                float64       // when > 0, one object in six is an outlier at this distance
-	looseBox, looseEnv geom.Bounds   // that box and the true envelope of its subtree
-	palette            []geom.Bounds // when non-empty most new objects take one of these few boxes
+	c                          *core.Ctx
+	r                          *gen.R
+	tree                       *rtree.Rtree
+	min                        int
+	max                        int
+	model                      []stored
+	nextID                     int
+	float                      bool
+	log                        []string
+	hash                       *core.Hasher
+	prevH                      int
+	sawColl                    bool
+	sawIntU                    bool
+	removed                    []stored // previously deleted objects (for absent deletes)
+	failed                     bool
+	nn                         bool
+	loose                      bool          // C12: the last structure walk saw a non-tight node box
+	far                        float64       // when > 0, one object in six is an outlier at this distance
+	keptNN, keptNNCopy         []geom.Geom   // the previous NearestNeighbors result and a copy of it
+	keptSearch, keptSearchCopy []geom.Geom   // the previous SearchIntersect result and a copy of it
+	looseBox, looseEnv         geom.Bounds   // that box and the true envelope of its subtree
+	palette                    []geom.Bounds // when non-empty most new objects take one of these few boxes
 }
 
 func (h *hist) coord() float64 {
@@ -120,6 +122,25 @@ func (h *hist) newObj() stored {
 		}
 	}
 	b := geom.Bounds{Min: geom.Point{X: x0, Y: y0}, Max: geom.Point{X: x0 + w, Y: y0 + ht}}
+	if !h.nn && r.Chance(0.03) {
+		// an object whose bounding box is empty (an empty polygon, the box NewBounds returns): it
+		// can be stored, counted and deleted, and no query box shares a point with it
+		h.c.Count("obj.empty_bounds")
+		if r.Bool() {
+			e := geom.NewBounds()
+			return stored{obj: e, box: *e, id: h.nextID}
+		}
+		e := geom.NewBounds()
+		return stored{obj: &boxObj{bx: e, id: h.nextID}, box: *e, id: h.nextID}
+	}
+	if !h.nn && r.Chance(0.01) {
+		// a box so large that its area (and every enlargement computed from it) overflows
+		m := math.Pow(10, r.Range(150, 300))
+		b = geom.Bounds{Min: geom.Point{X: -m * r.Range(0.5, 1), Y: -m * r.Range(0.5, 1)}, Max: geom.Point{X: m * r.Range(0.5, 1), Y: m * r.Range(0.5, 1)}}
+		h.c.Count("obj.area_overflows")
+		bb := b
+		return stored{obj: &bb, box: b, id: h.nextID}
+	}
 	if len(h.palette) > 0 && r.Chance(0.8) {
 		// many coincident objects: whole nodes full of equal boxes
 		b = h.palette[r.Intn(len(h.palette))]
@@ -309,6 +330,16 @@ func (h *hist) afterOp() {
 			h.failed = true
 			return
 		}
+		// the slice an earlier search returned belongs to its caller: later calls (searches,
+		// inserts, deletes) must not change it
+		for i := range h.keptSearch {
+			if h.keptSearch[i] != h.keptSearchCopy[i] {
+				h.failed = true
+				c.Violate("search-earlier-result-changed", fmt.Sprintf("slot %d of the slice returned by an earlier SearchIntersect call changed during later calls", i), h.detail())
+				return
+			}
+		}
+		h.keptSearch, h.keptSearchCopy = got, append([]geom.Geom(nil), got...)
 		if ok, why := sameMultiset(got, want); !ok {
 			d := h.detail()
 			d["query"] = fmt.Sprintf("[%g,%g,%g,%g] (%s)", qb.Min.X, qb.Min.Y, qb.Max.X, qb.Max.Y, kind)
@@ -458,8 +489,10 @@ func runHistory(c *core.Ctx, idx int, nn bool) {
 	if r.Chance(0.15) {
 		// few distinct boxes (1..5) shared by most objects
 		np := r.IntRange(1, 5)
-		for i := 0; i < np; i++ {
-			h.palette = append(h.palette, h.newObj().box)
+		for len(h.palette) < np {
+			if b := h.newObj().box; !(b.Max.X < b.Min.X) {
+				h.palette = append(h.palette, b)
+			}
 		}
 		h.nextID = 0
 		c.Count("hist.palette_of_few_boxes")
@@ -753,6 +786,18 @@ func (h *hist) queryNN() {
 			h.failed = true
 			return
 		}
+		// the slice an earlier call returned belongs to its caller: a later call must not change it
+		if h.keptNN != nil {
+			for i := range h.keptNN {
+				if h.keptNN[i] != h.keptNNCopy[i] {
+					h.failed = true
+					c.Violate("nnk-earlier-result-changed", fmt.Sprintf("slot %d of the slice returned by an earlier NearestNeighbors call changed during a later call", i), d)
+					return
+				}
+			}
+			c.Count("nn.earlier_result_rechecked")
+		}
+		h.keptNN, h.keptNNCopy = got, append([]geom.Geom(nil), got...)
 		want := k
 		if size < k {
 			want = size
